@@ -463,7 +463,19 @@ def run_case(case, tier):
             if st_[0] == "if":
                 for c_, _ in st_[1]:
                     cond_vars(c_, in_cond)
-        if param in in_cond:
+        explained = param in in_cond
+        if not explained:
+            # ... or the parameter determines the law of a variable of an abstracted condition (c = Bernoulli(q) tested while c is untyped)
+            try:
+                from .. import diagnose
+                P.reset_settings()
+                program_, _rb = P.prepare(case["text"])
+                explained = diagnose.param_reaches_abstracted_condition(program_, param)
+            except Exception:
+                explained = False
+            finally:
+                P.reset_settings()
+        if explained:
             for v in res["violations"]:
                 if v.get("key") is None and v.get("kind") == "wrong-sensitivity":
                     v["key"] = K_SENS_ABS
